@@ -7,6 +7,7 @@ func AllRules() map[string]*Rule {
 	m := map[string]*Rule{}
 	for _, r := range []*Rule{
 		ruleVoteGrant(),
+		ruleTermVote(),
 	} {
 		m[r.ID] = r
 	}
